@@ -155,9 +155,6 @@ def cut_slice(text, sl):
     for idx, rg in enumerate(sl["regions"]):
         try:
             a, b, body = find_region(text, sl.get("within"), rg["start"], rg["end"], rg.get("pick"))
-            for pat in rg.get("must_not", []):
-                if re.search(pat, _mask(body)):
-                    raise LostAnchor(f"region shape changed: /{pat}/ occurs in it")
         except LostAnchor as e:
             raise LostAnchor(f"{sl['name']}: {e}")
         if rg.get("inner"):
@@ -165,6 +162,9 @@ def cut_slice(text, sl):
             lines_ = body.split("\n")
             body = "\n".join(lines_[1:-1])
             a, b = a + 1, b - 1
+        for pat in rg.get("must_not", []):
+            if re.search(pat, _mask(body)):
+                raise LostAnchor(f"{sl['name']}: region shape changed: /{pat}/ occurs in it")
         if idx > 0:
             parts.append(glue[idx - 1] if idx - 1 < len(glue) else "")
         parts.append(f"// ---- verbatim {sl['file']} lines {a + 1}-{b + 1} ----")
